@@ -6,6 +6,7 @@ CONSTANTS
   Js = {1, 2}
   Ks = {1}
   Crashes = FALSE
+  Toks = {99}
 INVARIANT NoStale
 INVARIANT Minimal
 INVARIANT Ordered
